@@ -72,6 +72,26 @@ def find_witness(pid, obligation):
                     if p.returncode == 1:
                         w["what"] = p.stdout.strip().replace("\n", " | ")
                         return w
+        if pid == "C06":
+            # ordinal + decimal separator + digit: the ordinal must keep its marker
+            ok, err = build_witness()
+            seps = {"en": "point", "fr": "virgule", "es": "coma", "pt": "vírgula", "it": "virgola", "de": "komma", "nl": "komma"}
+            for code, sep in seps.items():
+                rows_path = os.path.join(VERIF, "specs", "templates", f"{code}_rows.json")
+                if not (ok and os.path.exists(rows_path)):
+                    continue
+                rows = [r for r in json.load(open(rows_path)) if r.get("expect")]
+                ords = [r for r in rows if r.get("marker") and not r["expect"].isdigit()][:6]
+                units = [r for r in rows if r["expect"].isdigit() and len(r["expect"]) == 1 and r["expect"] != "0"][:2]
+                for o_ in ords:
+                    for u_ in units:
+                        text = f"{o_['word']} {sep} {u_['word']}"
+                        w = {"kind": "call", "fn": "replace", "lang": code, "text": text, "threshold": 0.0,
+                             "expect": {"starts_with": o_["expect"]}}
+                        p = subprocess.run([wbin("t2n_call"), json.dumps(w)], capture_output=True, text=True, timeout=20)
+                        if p.returncode == 1:
+                            w["what"] = p.stdout.strip().replace("\n", " | ")
+                            return w
         if fn == "get_interpreter_for":
             ok, err = build_witness()
             if ok:
